@@ -105,3 +105,64 @@ Definition spec_fan_ok (i : fan_input) (recorded : val) : bool :=
       hist_ok ds (mask_of use) ops pre && lasts_ok ds (last_mask (mask_of use) pre) lasts post
   | _ => false
   end.
+
+(* ---------------------------------------------------------------- several configured packages *)
+Section MultiStatements.
+  Variable V : Type.
+  Variable Er : N -> N -> list N -> V.
+
+  (* whatever was done, in whatever interleaving, to any of the configured packages (of the
+     same or of different raw packages): a read on wrapper w yields the attribute of ITS raw
+     package evaluated under ITS current USE set *)
+  Definition multi_reads_current_stmt : Prop :=
+    forall (locked : list N) (cfgs : list (N * list N)) (ops : list (nat * op))
+           (w : nat) (a : N) (raw : N) (s : st V),
+      let ws := mrun V Er ops (minit V locked cfgs) in
+      nth_error ws w = Some (raw, s) ->
+      fst (mstep_at V Er w (Read a) ws) = Some (RV (Er raw a (current_use s))).
+
+  (* an op addressed to one wrapper leaves every other wrapper exactly as it was; a request
+     answered False also leaves the USE set of the addressed one as it was *)
+  Definition multi_isolated_stmt : Prop :=
+    forall (ws : list (wst V)) (w w' : nat) (o : op),
+      w' <> w -> nth_error (snd (mstep_at V Er w o ws)) w' = nth_error ws w'.
+
+  Definition multi_refused_unchanged_stmt : Prop :=
+    forall (ws : list (wst V)) (w : nat) (o : op) (raw : N) (s : st V),
+      nth_error ws w = Some (raw, s) -> is_request o ->
+      fst (mstep_at V Er w o ws) = Some (RB false) ->
+      exists s', nth_error (snd (mstep_at V Er w o ws)) w = Some (raw, s')
+                 /\ same_set (current_use s') (current_use s).
+End MultiStatements.
+
+(* acceptor over the recorded observations of a multi history (comparison B in Coq):
+   a read returns the attribute of the wrapper's raw package under the USE mask recorded for that
+   wrapper at that step; a refused request leaves the recorded mask of that wrapper unchanged;
+   no request raises *)
+Fixpoint nth_mask (w : nat) (flat : list val) : Z :=
+  match flat, w with
+  | VZ m :: _ :: _, O => m
+  | _ :: _ :: r, S w' => nth_mask w' r
+  | _, _ => (-1)%Z
+  end.
+
+Definition flat_init (cfgs : list (N * Z)) : list val :=
+  flat_map (fun c => [VZ (snd c); VZ 0]) cfgs.
+
+Fixpoint multi_ok (dss : list (list (list node))) (cfgs : list (N * Z)) (prev : list val)
+  (ops : list (nat * op)) (obs : list val) : bool :=
+  match ops, obs with
+  | [], [] => true
+  | (w, o) :: ops', (VL [r; VL flat]) :: obs' =>
+      let raw := fst (nth w cfgs (0%N, 0%Z)) in
+      obs_ok (nth (N.to_nat raw) dss []) (nth_mask w prev) o r (nth_mask w flat)
+      && multi_ok dss cfgs flat ops' obs'
+  | _, _ => false
+  end.
+
+Definition spec_multi_ok (i : multi_input) (recorded : val) : bool :=
+  let '((dss, cfgs, locked), ops) := i in
+  match recorded with
+  | VL obs => multi_ok dss cfgs (flat_init cfgs) ops obs
+  | _ => false
+  end.
